@@ -256,3 +256,14 @@ def run(cx):
         check_callers(ob, prog, "anemo::connection::Connection::close",
                       ["anemo::network::connection_manager::ActivePeersInner::add", "anemo::network::connection_manager::ActivePeersInner::remove",
                        "anemo::network::connection_manager::ActivePeersInner::remove_with_stable_id"], crates=["anemo"], floor=3, what="Connection::close")
+
+    with cx.ob("C05.6", "R-PATHSEQ", "the loser's clean-up cannot disturb the winner: removal by stable id touches the map only on the id-equal edge (C04.2d) and the handler exit removes by its own stable id (C04.4), re-evaluated") as ob:
+        from . import c04
+        sub = cx.__class__("C05", prog, cx.tier, cx.config, cx.tree, repo=cx.repo)
+        c04.run(sub)
+        w = [x for x in sub.obs if x.oid in ("C04.2d", "C04.4")]
+        ob.count(sum(x.evals for x in w))
+        bad = [v for x in w for v in x.violations]
+        ob.require(len(w) == 2 and not bad, "loser-cleanup/stable-id-guard",
+                   "the handler of the connection that lost the tie-break can remove or orphan the surviving connection: " + "; ".join(v.msg for v in bad)[:300],
+                   "anemo::network::connection_manager::ActivePeersInner::remove_with_stable_id")
